@@ -354,6 +354,17 @@ def run(ctx):
                                   'cached': None, 'uses_name': key == kf2}
                 sp.wbcells[key] = ('f', ast)
             sp.names['NmFormula'] = ('ref', s0, 10, 1, True, True)
+            # a user's name that begins with an underscore (legal; not one of
+            # Excel's own _xlnm. names), and a formula whose cached result is
+            # a 17-digit float next to a short decimal
+            sp.names['_under'] = ('ref', s0, 10, 1, True, True)
+            k17 = (s0, 10, 3)
+            a17 = ('bin', '+', ('lit', 0.1, '0.1'), ('lit', 0.2, '0.2'))
+            sp.sb.put_formula(k17[0], k17[1], k17[2], ref.render(a17),
+                              cached=repr(0.1 + 0.2))
+            sp.expect[k17] = {'kind': 'formula', 'formula': ref.render(a17),
+                              'cached': ('num', 0.1 + 0.2)}
+            sp.wbcells[k17] = ('f', a17)
             ctx.event('names_on_uncached_formula_cells')
             for nm, t in sp.names.items():
                 sp.sb.names.append((nm, build.name_target(t)))
